@@ -152,7 +152,7 @@ pub fn run(args: &Args) -> i32 {
     let thorough = args.tier == Tier::Thorough;
     let total: u64 = LATTICE_RADICES.iter().product();
     let idxs: Vec<u64> = if thorough { (0..total).collect() } else { (0..total).filter(|i| i % 2 == (args.seed % 2)).collect() };
-    let phases: Vec<u64> = if thorough { vec![args.seed, args.seed + 1, args.seed + 2] } else { vec![args.seed] };
+    let phases: Vec<u64> = if thorough { (0..8).map(|k| args.seed + k).collect() } else { vec![args.seed] };
     let mut all_batches = Vec::new();
     let mut worst_slices = Worst::default();
     for (pi, &seed) in phases.iter().enumerate() {
